@@ -54,6 +54,9 @@ impl MScriptFileBuilder {
 
         let mut functions = functions.borrow_mut();
 
+        #[cfg(mscript_verif)]
+        crate::verif::dump_function(&self.building.path, &name, &bytecode);
+
         if let Some(functions) = functions.as_mut() {
             functions.add_function(Rc::downgrade(&self.building), name, bytecode);
         } else {
@@ -247,6 +250,13 @@ impl MScriptFile {
                     let current_function_name = current_function_name
                         .take()
                         .context("found `end` outside of a function")?;
+
+                    #[cfg(mscript_verif)]
+                    crate::verif::dump_function(
+                        &self.path,
+                        &current_function_name,
+                        &instruction_buffer,
+                    );
 
                     let function = Function::new(
                         Rc::downgrade(self),
